@@ -47,17 +47,9 @@ def oracle(scn, trace):
     out = []
     ent = entry_name(scn)
     place = dict(scn.get("place") or {})
-    if scn["entry"] == "decorator":
-        for k in ("handler", "before_sleep", "sleeper"):
-            if place.get(k) == "call":
-                place[k] = "policy"
     w_handler = _expected_which(place.get("handler", "none"))
     w_before = _expected_which(place.get("before_sleep", "none"))
     w_sleeper = _expected_which(place.get("sleeper", "none")) or "default"
-    if scn["entry"] == "decorator":
-        # 'both' on the decorator means the call-flavoured stub was installed at policy level
-        for k, cur in (("handler", w_handler), ("before_sleep", w_before), ("sleeper", w_sleeper)):
-            pass
     for cid, (cf, infos) in analyze(scn, trace).items():
         for inf in infos:
             a = inf.a
@@ -82,7 +74,7 @@ def oracle(scn, trace):
             for h in inf.handlers:
                 if not same(h["sleep_s"]):
                     out.append(V("R1", "handler received a delay different from the applied one", {"call": cid, "attempt": a.k, "got": h["sleep_s"], "expected": delay, "entry": ent}))
-                if h["which"] != w_handler and not (scn["entry"] == "decorator"):
+                if h["which"] != w_handler:
                     out.append(V("R5", "policy-level handler used although a call-level one was given", {"call": cid, "attempt": a.k, "used": h["which"], "expected": w_handler, "entry": ent}))
                 if inf.strategies:
                     s = inf.strategies[0]
@@ -109,7 +101,7 @@ def oracle(scn, trace):
                 for b in inf.before:
                     if not same(b["sleep_s"]):
                         out.append(V("R2", "before_sleep received a different delay", {"call": cid, "attempt": a.k, "got": b["sleep_s"], "expected": delay, "entry": ent}))
-                    if b["which"] != w_before and scn["entry"] != "decorator":
+                    if b["which"] != w_before:
                         out.append(V("R5", "policy-level before_sleep used although a call-level one was given", {"call": cid, "attempt": a.k, "used": b["which"], "expected": w_before, "entry": ent}))
                 if len(inf.sleeps) != 1:
                     rule = "R6" if w_handler is None else "R2"
@@ -117,7 +109,7 @@ def oracle(scn, trace):
                 for s in inf.sleeps:
                     if not same(s["delay"]):
                         out.append(V("R2", "sleeper received a different delay", {"call": cid, "attempt": a.k, "got": s["delay"], "expected": delay, "entry": ent}))
-                    if s["which"] != w_sleeper and scn["entry"] != "decorator":
+                    if s["which"] != w_sleeper:
                         out.append(V("R5", "wrong sleeper used (call-level must override policy-level; default only when none)", {"call": cid, "attempt": a.k, "used": s["which"], "expected": w_sleeper, "entry": ent}))
                 if inf.before and inf.sleeps and inf.before[0]["seq"] > inf.sleeps[0]["seq"]:
                     out.append(V("R2", "before_sleep ran after the sleep", {"call": cid, "attempt": a.k, "entry": ent}))
